@@ -51,7 +51,10 @@ pub fn run(ctx: &Ctx) -> Report {
                 }
             }
         }
-        for _ in 0..reps {
+        // `--equiv-only` (interpreter slices on other targets): constructor equivalences for every
+        // type, no length sweep
+        let equiv_only = ctx.flags.iter().any(|a| a == "--equiv-only");
+        for _ in 0..(if equiv_only { 0 } else { reps }) {
             for &len in &lens {
                 let cl = gen::pick_class(&mut rng, len as u64);
                 let key = gen::gen(&mut rng, len, cl);
@@ -81,7 +84,7 @@ pub fn run(ctx: &Ctx) -> Report {
         rep.set(&t.name, "lengths_accepted", accepted.len() as i64);
         // new(&key) vs new_from_slice(&key) for the fixed KeySize
         if (t.accepts)(t.key_size) && t.combined {
-            for i in 0..8u64 {
+            for i in 0..(if ctx.light() { 2 } else { 8u64 }) {
                 let cl = gen::pick_class(&mut rng, i);
                 let key = gen::gen(&mut rng, t.key_size, cl);
                 let a = std::panic::catch_unwind(|| (t.new_fixed)(&key)).ok().flatten();
